@@ -1125,7 +1125,7 @@ class C02(EvalProp):
     trusted = TRUSTED_PARSE
     rule = ('strings <= 256 bytes: grammar-derived paths (respelled), character-level mutations of them and of the '
             'suite paths (read from test_jsonpath_test.go at run time), token soup, arbitrary Unicode, invalid UTF-8; '
-            'four configurations, plus names registered as both kinds of function and functions under names no path can spell; thorough adds the bounded-exhaustive reduced grammar (all operand x operator x '
+            'four configurations, plus names registered as both kinds of function and functions under names no path can spell; chains of 22..30 && / || terms evaluated under the time limit; thorough adds the bounded-exhaustive reduced grammar (all operand x operator x '
             'operand comparisons, all step sequences up to length 3). Each case runs in a worker process with a time '
             'limit. Non-trivial: the string is not rejected at offset 0 (distinct strings counted)')
 
@@ -1239,17 +1239,29 @@ class C02(EvalProp):
             for k, (path, want) in enumerate(chains):
                 if len(path) <= 256:
                     cases.append((Case('chain%d_%d' % (reps, k), path, [], [], [], meta={'kind': 'long-chain', 'depth': reps}), want))
+        # long chains of `||` and `&&` (<= 256 characters) whose early terms hold for some member, evaluated on a small array: parsing
+        # AND evaluation return in time (a left-nested chain that evaluates an operand twice per level takes 2^n steps)
+        odoc = ('a', [('o', [(b'a', ('n', 1.0)), (b'b', ('n', 2.0))]), ('o', [(b'a', ('n', 7.0))]), ('n', 3.0)])
+        for nterms in sorted(set([24, 28, 30] + [r.randint(22, 30) for _ in range(2)])):
+            for k, (term, glue) in enumerate([(b'@.a==%d', b'||'), (b'@.a>%d', b'||'), (b'@.b', b'||'), (b'@.a<%d', b'&&'), (b'!@.z%d', b'&&')]):
+                path = b'$[?(' + glue.join((term % (j + 1)) if b'%d' in term else term for j in range(nterms)) + b')]'
+                if len(path) <= 256:
+                    cases.append((Case('orch%d_%d' % (nterms, k), path, [odoc], [], [], meta={'kind': 'long-logical-chain', 'depth': nterms}), 'ok'))
         outs = core.run_go([c for c, _ in cases], timeout_ms=4000)
         for (c, want), o in zip(cases, outs):
             res.evaluations += 1
             p = o.get('P', '')
             res.dist['deep:' + pclass(p)] += 1
+            if c.meta['kind'] == 'long-logical-chain' and pclass(p) == 'ok' and cls_of(o.get('R0', '')) not in ('ok', 'mne'):
+                res.violation('concrete', sig_of(c, 'evaluation-not-bounded'), 'a filter of %d terms (%d characters) on a three-element array -> %s within 4 s'
+                              % (c.meta['depth'], len(c.path), o.get('R0', '')[:100]), c, expected='a result or member-did-not-exist', observed=o.get('R0', ''))
+                continue
             if pclass(p) == want:
                 res.nontrivial.add(c.path)
             else:
                 res.violation('concrete', sig_of(c, 'parse-not-bounded'),
                               'Parse of a %d-level %s (%d characters) -> %s, expected %s within 4 s'
-                              % (c.meta['depth'], 'nested filter' if c.meta['kind'] == 'deep-filter' else 'chain of selectors', len(c.path), p[:100], want), c, expected=want, observed=p)
+                              % (c.meta['depth'], {'deep-filter': 'nested filter', 'long-logical-chain': 'chain of && / || terms (parsed and evaluated)'}.get(c.meta['kind'], 'chain of selectors'), len(c.path), p[:100], want), c, expected=want, observed=p)
 
 
 def bigint_filter_cases(r, n, with_doc=False):
